@@ -1,5 +1,5 @@
 (* C14 — remove-duplicates / delete-duplicates: M = S on the guard. *)
-From C14 Require Import Base Model Spec ProofsScan ProofsRemove.
+From C14 Require Import Base Model Spec ProofsScan ProofsReverse ProofsRemove.
 From Coq Require Import Arith.
 
 (* the loop of delete-duplicates.go on the elements inside the bounds *)
@@ -204,12 +204,12 @@ Proof.
     assert (forall s, elems s = elems (c_seq c) ->
       RSeq (if c_from_end c
             then dup_loop (c_test c) (c_key c) (s_start c) (norm_end (go_len s) (c_end c)) (indexed (elems s)) []
-            else rev (dup_loop (c_test c) (c_key c) (s_start c) (norm_end (go_len s) (c_end c)) (rev (indexed (elems s))) [])) =
+            else go_reverse (dup_loop (c_test c) (c_key c) (s_start c) (norm_end (go_len s) (c_end c)) (rev (indexed (elems s))) [])) =
       RSeq (firstn (s_start c) (elems s) ++
             (if c_from_end c then dedup_earlier (c_test c) (c_key c) [] (slice (s_start c) (s_end c (elems s)) (elems s))
              else dedup_later (c_test c) (c_key c) (slice (s_start c) (s_end c (elems s)) (elems s))) ++
             skipn (s_end c (elems s)) (elems s))) as Hgen.
-    { intros s Hs. f_equal.
+    { intros s Hs. f_equal. rewrite go_reverse_is_rev.
       pose proof (go_len_ge s) as Hg.
       set (l := elems s) in *. set (e := norm_end (go_len s) (c_end c)).
       assert (s_start c <= s_end c l)%nat as B1' by (rewrite Hs; exact B1).
@@ -244,4 +244,37 @@ Proof.
     - apply (Hgen (SStr l)). reflexivity. }
   unfold m_call, s_call. rewrite Hp.
   destruct (c_fn c) eqn:F; try discriminate Hf; rewrite Hm; reflexivity.
+Qed.
+
+(* ---- laws of the specification of remove-duplicates ----------------------------------------------------- *)
+Lemma dedup_later_incl : forall t k w z, In z (dedup_later t k w) -> In z w.
+Proof.
+  induction w as [|x r IH]; intros z H; [contradiction|]. cbn in H.
+  destruct (existsb _ r); [right; now apply IH|]. destruct H as [<-|H]; [now left|right; now apply IH].
+Qed.
+
+(* no element of the result matches a later element of the result *)
+Theorem dedup_later_no_match : forall t k w,
+  ForallOrdPairs (fun a b => s_test2 t (key_app k a) (key_app k b) = false) (dedup_later t k w).
+Proof.
+  induction w as [|x r IH]; [constructor|]. cbn.
+  destruct (existsb (fun y => s_test2 t (key_app k x) (key_app k y)) r) eqn:E; [exact IH|].
+  constructor; [|exact IH]. apply Forall_forall. intros z Hz. apply dedup_later_incl in Hz.
+  destruct (s_test2 t (key_app k x) (key_app k z)) eqn:M; [|reflexivity].
+  assert (existsb (fun y => s_test2 t (key_app k x) (key_app k y)) r = true) by (apply existsb_exists; eauto). congruence.
+Qed.
+
+(* for a transitive test every element is kept or matches a kept later element *)
+Theorem dedup_later_represents : forall t k w x, tr t -> In x w ->
+  In x (dedup_later t k w) \/ exists z, In z (dedup_later t k w) /\ s_test2 t (key_app k x) (key_app k z) = true.
+Proof.
+  intros t k w x Ht. revert x. induction w as [|y r IH]; intros x H; [contradiction|]. cbn.
+  destruct (existsb (fun y0 => s_test2 t (key_app k y) (key_app k y0)) r) eqn:E.
+  - destruct H as [<-|H]; [|now apply IH].
+    apply existsb_exists in E as [y' [Hy' M]]. destruct (IH y' Hy') as [K|[z [Hz Mz]]].
+    + right. exists y'. split; assumption.
+    + right. exists z. split; [exact Hz|]. rewrite <- dup_test_s_test2 in *. eapply Ht; eassumption.
+  - destruct H as [<-|H]; [left; now left|]. destruct (IH x H) as [K|[z [Hz Mz]]].
+    + left. now right.
+    + right. exists z. split; [now right|exact Mz].
 Qed.
